@@ -27,7 +27,10 @@ from basyx.aas import model
 
 
 logger = logging.getLogger(__name__)
-_http_pool_manager = urllib3.PoolManager()
+# urllib3's default Retry re-sends PUT and DELETE after a read error. If only the answer to an applied, revision-guarded
+# write was lost, the repetition meets the new revision and the write would be reported as refused (409 / 404).
+# So only lookups are repeated after a read error; failed connection attempts are still retried for every method.
+_http_pool_manager = urllib3.PoolManager(retries=urllib3.Retry(3, allowed_methods=["GET", "HEAD"]))
 
 
 class CouchDBBackend(backends.Backend):
